@@ -268,7 +268,7 @@ def analyse(facts, entries):
     # set_claim forwarding (version independent)
     probs = []
     und = None
-    for K in ("K", "nbf"):
+    for K in ("K", "nbf", "iat", "exp", "iss", "sub", "aud", "jti"):
         sts = D.start()
         if sts is None:
             und = D.why
@@ -285,7 +285,7 @@ def analyse(facts, entries):
                 probs.append("set_claim(%s): the claim must go to GenericBuilder::set_claim exactly once; calls: %s" % (K, fw))
             rms = [x[1] for x in evs if x[0] == "gb.remove_claim"]
             if rms not in ([], [["'%s'" % K]]):
-                probs.append("set_claim(%s) removes %s from the generic builder" % (K, rms))
+                probs.append("set_claim(%s) removes %s from the generic builder: a caller-supplied claim replaces the default of its own key only" % (K, rms))
     # the defaults: what default() hands to the generic builder, and how often it reads the clock
     dv = M.view(facts, D.default)
     outs = D.I.run(D.default, [], A.State())
@@ -306,12 +306,28 @@ def analyse(facts, entries):
             dprobs.append("default() reads the clock %d times: iat, nbf and exp must derive from one creation time" % o.state.facts.get("now_calls", 0))
     if not dund and nret == 0:
         dund = "default() has no returning path"
+    # every public way to obtain a builder without one starts from the same defaults (a public `new()` that hands out the bare builder
+    # issues tokens without exp / iat / nbf although no-expiration was never acknowledged)
+    for cb in sorted(facts.bodies.values(), key=lambda b_: b_["id"]):
+        if cb is D.default or cb.get("vis") != "pub" or cb.get("kind") != "AssocFn" or (cb.get("arg_count") or 0) != 0:
+            continue
+        if not (cb.get("impl_self") or "").startswith("crate::prelude::paseto_builder::PasetoBuilder<") or not re.search(r"-> (crate::prelude::paseto_builder::PasetoBuilder<|Self\b)", cb.get("sig") or ""):
+            continue
+        for o in D.I.run(cb, [], A.State()):
+            if D._bad(o):
+                dund = dund or "%s: %s %s" % (M.short(cb["id"]), o.kind, o.state.unmodelled[:2])
+                break
+            if o.kind != "return":
+                continue
+            got = sorted(e[1] for e in o.state.events if e[0] == "gb.claim")
+            if got != want:
+                dprobs.append("the public constructor %s gives the generic builder %s, not the defaults %s of default()" % (M.short(cb["id"])[-60:], got, want))
     out["(defaults)"] = (None, dund) if dund else ([Finding("C13.R1", not dprobs, D.default["id"], "defaults" if not dprobs else dprobs[0][:90], "; ".join(sorted(set(dprobs)))[:600], dv.file(), D.default["line"],
                                                          "PasetoBuilder::default: one clock reading; exp = RFC 3339(now + 1h), iat = nbf = RFC 3339(now) through the typed claims, on every returning path")], None)
     sc = D.set_claim
     v = M.view(facts, sc)
     out["(set_claim)"] = (None, und) if und else ([Finding("C17.R5", not probs, sc["id"], "claim forwarded once" if not probs else probs[0][:90], "; ".join(sorted(set(probs)))[:500], v.file(), sc["line"],
-                                                          "PasetoBuilder::set_claim forwards the claim to GenericBuilder::set_claim exactly once (custom key and nbf)")], None)
+                                                          "PasetoBuilder::set_claim forwards the claim to GenericBuilder::set_claim exactly once and removes at most the default of the same key (custom key and the seven registered keys)")], None)
     return out
 
 
